@@ -19,11 +19,11 @@ import (
 // Oracle: less(a,b) == key(a).After(key(b)) with key = later of published/updated, nil before any object.
 
 type c17Item struct {
-	name string
-	kind string
-	it   ap.Item
+	name  string
+	kind  string
+	it    ap.Item
 	isNil bool
-	key  time.Time
+	key   time.Time
 }
 
 func c17Items() []c17Item {
@@ -81,9 +81,11 @@ func init() {
 			"every permutation of every 5-subset of 7 distinct-key items and of a 6-set with ties is one sort case; " +
 			"non-trivial = pair with two non-nil items or a sort of >=5 items",
 		Assumptions: []string{"sort.Slice is correct for a strict weak order", "reading D9 of DESIGN.md: domain = object struct types and nil"},
-		Bound:       func(string) string { return "complete: all pairs, all triples, 2520+720 permutation sorts (same in both tiers)" },
-		Shards:      8,
-		Run:         c17Run,
+		Bound: func(string) string {
+			return "complete: all pairs, all triples, 2520+720 permutation sorts (same in both tiers)"
+		},
+		Shards: 8,
+		Run:    c17Run,
 	})
 }
 
@@ -93,7 +95,9 @@ func c17Run(c *engine.Ctx) {
 		for bi := range items {
 			a, b := items[ai], items[bi]
 			class := fmt.Sprintf("C17|order|%s,%s", a.kind, b.kind)
-			c.Do(class, func() string { return fmt.Sprintf("ItemOrderTimestamp over a=%s b=%s (and every c of the grid)", a.name, b.name) }, func(t *engine.T) {
+			c.Do(class, func() string {
+				return fmt.Sprintf("ItemOrderTimestamp over a=%s b=%s (and every c of the grid)", a.name, b.name)
+			}, func(t *engine.T) {
 				t.Distinct(!a.isNil && !b.isNil)
 				ab := ap.ItemOrderTimestamp(a.it, b.it)
 				ba := ap.ItemOrderTimestamp(b.it, a.it)
